@@ -52,6 +52,9 @@ func main() {
 			}
 		}()
 		f(c)
+		if *prop != "C03" && *prop != "C11" {
+			checkKernelPurityFacts(c)
+		}
 	}()
 	c.Finish(*out)
 }
